@@ -3,9 +3,9 @@ package main
 // rules_loop.go: receive-loop rules (C03.*), id validation and late frames (C07.6, C08.4), shutdown gate (C10.1).
 
 import (
-	"go/types"
 	"fmt"
 	"go/token"
+	"go/types"
 	"sort"
 	"strings"
 
@@ -149,12 +149,27 @@ func (c *Ctx) shortLockExceptions() map[string]lockException {
 	r := c.receivers()
 	if r.plain != nil {
 		pn := r.plain.Obj().Name()
-		out[pn+".ingestMu"] = lockException{
-			allow: func(kind string, fn *ssa.Function) bool {
-				n := recvNamed(fn)
-				return kind == "select-blocking" && n != nil && n.Obj().Name() == pn && fn.Name() == c.W.mName("accept")
-			},
-			reason: "plain (revision-zero) receiver: blocking hand-off by design, exempted by C03",
+		// the ingest mutex: the plain receiver's own lock held at its blocking hand-off select (found by use, not by name)
+		for _, acc := range r.pAccept {
+			allInstrs(acc, func(in ssa.Instruction) {
+				sel, ok := in.(*ssa.Select)
+				if !ok || !sel.Blocking {
+					return
+				}
+				for _, l := range c.W.Locks().MustAt(sel).list() {
+					l = strings.TrimSuffix(l, ":R")
+					if !strings.HasPrefix(l, pn+".") {
+						continue
+					}
+					out[l] = lockException{
+						allow: func(kind string, fn *ssa.Function) bool {
+							n := recvNamed(fn)
+							return kind == "select-blocking" && n != nil && n.Obj().Name() == pn && fn.Name() == c.W.mName("accept")
+						},
+						reason: "plain (revision-zero) receiver: blocking hand-off by design, exempted by C03",
+					}
+				}
+			})
 		}
 	}
 	out["ReverseTunnelServer.mu"] = lockException{
